@@ -161,6 +161,18 @@ func RangAt(b Base) bool {
 	})
 }
 
+// SerializeErr: the error serialize returns for a value.
+func SerializeErr(b Base, in any) error {
+	_, err := b.serialize(in)
+	return err
+}
+
+// BoundaryOf: the boundary held by an interface value.
+func BoundaryOf(a any) *expr.RangeBoundary {
+	v, _ := a.(*expr.RangeBoundary)
+	return v
+}
+
 // IsBoundaryVal: a is a range boundary.
 func IsBoundaryVal(a any) bool {
 	_, ok := a.(*expr.RangeBoundary)
@@ -255,6 +267,7 @@ func SimpleOperand(in any) bool {
 //@   ensures  in == nil ==> s == "" && err == nil
 //@   ensures[no-partial-sql] Builtin(b) && err != nil ==> s == ""
 //@   ensures[boundary-text] IsBoundaryVal(in) && err == nil ==> len(s) >= 4
+//@   ensures[boundary-errors-propagate] IsBoundaryVal(in) && err == nil ==> SerializeErr(b, BoundaryOf(in).Min) == nil && SerializeErr(b, BoundaryOf(in).Max) == nil
 //@   ensures[string-quoted] IsStringVal(in) ==> err == nil && s == "'"+strings.ReplaceAll(StringOf(in), "'", "''")+"'"
 //@   ensures[column-quoted] IsColumnVal(in) && err == nil ==> len(ColumnOf(in)) > 0 && !strings.ContainsRune(ColumnOf(in), '"') && s == "\""+ColumnOf(in)+"\""
 //@   loop 0: rangeinv true
